@@ -78,9 +78,6 @@ type localfsOp struct {
 	// Expect is what the property requires of this call ("" = nothing beyond the generic checks):
 	// ok | fail | fail-unchanged | reject (must fail and touch nothing)
 	Expect string `json:"expect,omitempty"`
-	// Durable: this call, if it returns nil, must leave the object's directory entry synced
-	// (used after a killed upload, where the entry is known not to be synced).
-	Durable bool `json:"durable,omitempty"`
 }
 
 // localfsPrep is a step of world preparation done by the harness itself (plain os calls, synced).
